@@ -1,8 +1,11 @@
 (* C11 — executable model of mwlib.network.fetch.Fetcher (fetch.py) against an abstract, static wiki.
-   No proofs here.  The model describes the code WITH the four proposed fixes of
-   /verif/fixes/C11-*.diff (contributors stored; redirects resolved / missing pages skipped before a title
-   is expanded; images of the rendered revision taken from the parse result; an old redirect revision does
-   not enter the redirect map).
+   No proofs here.  The model describes /repo as it is since the four C11 fix commits 4906af9, 8808eaf,
+   8d69ad3, 3ee1a3d (= /verif/fixes/C11-*.diff: contributors stored; redirects resolved / missing pages
+   skipped before a title is expanded; images of the rendered revision taken from the parse result; an old
+   redirect revision does not enter the redirect map).  A page listed several times with different revisions
+   yields one record per listed revision id (IArt t (Some rv) rv) plus one by-title record (IArt t None src):
+   FsOutput.write_expanded_page appends every record, whatever was written before for the same title.
+   The fuels of `resolve` / `imgs_of` are proved sufficient in ProofsFuel.v.
 
    Abstraction: wikitext is reduced to its dependency sets; the text the wiki serves for a revision is
    identified with that revision's id (`src` of IArt) — server-side template expansion is a function of the
